@@ -71,16 +71,19 @@ func doesPodsFieldMatchPeer(pods *apisv1a.NamespacedPod, peer Peer) (bool, error
 // @todo support also egress rule peer with Networks field
 // @todo if egress rule peer contains Nodes field, raise a warning that we don't support it
 func egressRuleSelectsPeer(rulePeers []apisv1a.AdminNetworkPolicyEgressPeer, dst Peer) (bool, error) {
+	// the peers of a rule come in no particular order, so all of them are examined even if dst is selected
+	// already: an invalid rule peer is reported wherever it stands in the list
+	selected := false
 	for i := range rulePeers {
 		fieldMatch, err := ruleFieldsSelectsPeer(rulePeers[i].Namespaces, rulePeers[i].Pods, dst)
 		if err != nil {
 			return false, err
 		}
 		if fieldMatch {
-			return true, nil
+			selected = true
 		}
 	}
-	return false, nil
+	return selected, nil
 }
 
 // ruleFieldsSelectsPeer returns wether the input rule fields selects the peer
@@ -104,16 +107,18 @@ func ruleFieldsSelectsPeer(namespaces *metav1.LabelSelector, pods *apisv1a.Names
 
 // ingressRuleSelectsPeer checks if the given AdminNetworkPolicyIngressPeer rule selects the given peer
 func ingressRuleSelectsPeer(rulePeers []apisv1a.AdminNetworkPolicyIngressPeer, src Peer) (bool, error) {
+	// as for egress: every peer of the rule is examined, so that an invalid one is reported wherever it stands
+	selected := false
 	for i := range rulePeers {
 		fieldMatch, err := ruleFieldsSelectsPeer(rulePeers[i].Namespaces, rulePeers[i].Pods, src)
 		if err != nil {
 			return false, err
 		}
 		if fieldMatch {
-			return true, nil
+			selected = true
 		}
 	}
-	return false, nil
+	return selected, nil
 }
 
 // updateConnsIfEgressRuleSelectsPeer checks if the given dst is selected by given egress rule,
